@@ -7,6 +7,7 @@ import (
 	"fmt"
 	"io"
 	"sort"
+	"time"
 
 	"nhooyr.io/websocket"
 	"verif/fw"
@@ -123,6 +124,9 @@ type xportObs struct {
 	// AfterErr: the reader that had just failed was read once more and reported a
 	// clean end of message or more data ("" = it failed again, as it must)
 	AfterErr string
+	// AfterEOF: a reader that had reported the clean end of its message was read once
+	// more and delivered data ("" = nothing more, as it must)
+	AfterEOF string
 }
 
 // xportReadAfterError reads once more from a message reader whose last Read
@@ -139,6 +143,9 @@ func xportReadAfterError(r io.Reader) string {
 	return ""
 }
 
+// xportLockStalls counts, per process, the 3 s waits described in xportReadAll.
+var xportLockStalls int
+
 const xportMaxMsgs = 4096
 const xportMaxIdleReads = 4096
 
@@ -150,8 +157,25 @@ func xportReadAll(ctx context.Context, conn *websocket.Conn, bufSize int) xportO
 	if bufSize > 0 {
 		buf = make([]byte, bufSize)
 	}
+	reread := false
 	for len(obs.Complete) < xportMaxMsgs {
-		typ, r, err := conn.Reader(ctx)
+		if xportLockStalls >= 6 {
+			reread = false // (see below) enough evidence in this process: keep the remaining cases fast
+		}
+		rctx := ctx
+		if reread {
+			// the previous message's reader was read once more after its end; if that left
+			// the read lock held, this call would wait for ever: give it 3 s
+			var cancel context.CancelFunc
+			rctx, cancel = context.WithTimeout(ctx, 3*time.Second)
+			defer cancel()
+		}
+		typ, r, err := conn.Reader(rctx)
+		if err != nil && reread && errors.Is(err, context.DeadlineExceeded) {
+			xportLockStalls++
+			obs.Stuck = "after one more Read on a message reader that had reported io.EOF, Conn.Reader could not get the read lock within 3 s: " + err.Error()
+			return obs
+		}
 		if err != nil {
 			obs.Err = err
 			obs.FromReader = true
@@ -187,6 +211,16 @@ func xportReadAll(ctx context.Context, conn *websocket.Conn, bufSize int) xportO
 		}
 		if rerr == io.EOF {
 			obs.Complete = append(obs.Complete, xportMsg{int(typ), data})
+			// applications that loop "until io.EOF" with a helper often ask once more
+			if len(obs.Complete)%2 == 1 && obs.AfterEOF == "" && xportLockStalls < 6 {
+				var b [16]byte
+				if n, e := r.Read(b[:]); n > 0 {
+					obs.AfterEOF = fmt.Sprintf("message %d: one more Read after io.EOF delivered %d bytes (%x), err=%v", len(obs.Complete)-1, n, b[:n], e)
+				}
+				reread = true
+			} else {
+				reread = false
+			}
 			continue
 		}
 		obs.Partial = &xportMsg{int(typ), data}
